@@ -143,3 +143,46 @@ Proof.
     + rewrite app_assoc. apply adds_end.
     + apply (adds_app_l [f]). apply adds_end.
 Qed.
+
+(** ** the taker is an innermost node
+    [receives o tg t t']: [t'] is [t] with the names [tg] appended to the class names of ONE node [N] such that
+    [o] fits inside [N], [o] fits inside no node below [N] (no shape nested in [N] contains the tag), and [o]
+    fits in no subtree that precedes [N]'s branch among the children of any ancestor (the first such place,
+    depth first).  Everything else of the tree is unchanged. *)
+Inductive receives (o : fragment) (tg : list (list Z)) : ftree -> ftree -> Prop :=
+| recv_here f tags kids :
+    can_fit f o = true -> (forall k, In k kids -> fits_somewhere k o = false) ->
+    receives o tg (FT f tags kids) (FT f (tags ++ tg) kids)
+| recv_below f tags pre k k' post :
+    (forall j, In j pre -> fits_somewhere j o = false) -> receives o tg k k' ->
+    receives o tg (FT f tags (pre ++ k :: post)) (FT f tags (pre ++ k' :: post)).
+
+Theorem enclose_tag_innermost t o t' :
+  frag_css_tag (ft_frag o) <> [] -> enclose_deep_first t o = Some t' ->
+  receives (ft_frag o) (frag_css_tag (ft_frag o)) t t'.
+Proof.
+  intros Tg. revert t'. induction t as [f tags kids IH] using ftree_ind'. intros t'. rewrite enclose_unfold.
+  assert (K : forall kids', try_kids o kids = Some kids' ->
+            exists pre k k' post, kids = pre ++ k :: post /\ kids' = pre ++ k' :: post
+              /\ (forall j, In j pre -> fits_somewhere j (ft_frag o) = false)
+              /\ receives (ft_frag o) (frag_css_tag (ft_frag o)) k k').
+  { induction IH as [|k r Hk Fr IHr]; cbn [try_kids]; intros kids' H; [discriminate|].
+    destruct (enclose_deep_first k o) as [k'|] eqn:E.
+    - inversion H; subst. exists [], k, k', r. split; [reflexivity|]. split; [reflexivity|]. split; [intros j []|].
+      apply Hk. reflexivity.
+    - destruct (try_kids o r) as [r'|] eqn:Tr; cbn [option_map] in H; [|discriminate]. inversion H; subst.
+      destruct (IHr r' eq_refl) as [pre [k0 [k0' [post [E1 [E2 [Fp R]]]]]]].
+      exists (k :: pre), k0, k0', post. subst. split; [reflexivity|]. split; [reflexivity|]. split; [|exact R].
+      intros j [<-|Hj]; [apply enclose_none_iff; exact E|apply Fp; exact Hj]. }
+  destruct (try_kids o kids) as [kids'|] eqn:T.
+  - intros H; inversion H; subst. destruct (K kids' eq_refl) as [pre [k [k' [post [E1 [E2 [Fp R]]]]]]]. subst.
+    apply recv_below; assumption.
+  - assert (NK : forall k, In k kids -> fits_somewhere k (ft_frag o) = false).
+    { clear K. induction IH as [|k r Hk Fr IHr]; [intros k []|]. cbn [try_kids] in T.
+      destruct (enclose_deep_first k o) eqn:E; [discriminate|].
+      destruct (try_kids o r) eqn:Tr; [discriminate|].
+      intros j [<-|Hj]; [apply enclose_none_iff; exact E|apply IHr; [reflexivity|exact Hj]]. }
+    destruct (can_fit f (ft_frag o)) eqn:CF; [|discriminate].
+    destruct (frag_css_tag (ft_frag o)) as [|x xs] eqn:Ft; [congruence|].
+    intros H; inversion H; subst. apply recv_here; assumption.
+Qed.
